@@ -35,11 +35,7 @@ Print Assumptions C12_fixed.
 
 (** Variable buckets through ExecuteQuery: additionally guarded by [guard_var] (every scanned
     interval holds a record, candidates in time order, and the limit covers all scanned intervals
-    or the range bound on the side the limit counts from cuts no candidate).  The quirks of
-    trimResultsToRange (a single remaining record / no record <= end are returned unchecked, C11's
-    finding) are part of the model on both sides of the equation.  [guard_var] = [guard_f12]
-    (the limit counts intervals before the range trim) && [guard_span] (the backward scan does not
-    over-read in an earlier year file). *)
+    or the range bound on the side the limit counts from cuts no candidate). *)
 Theorem C12_variable : forall tfs (st : vstore) req rs re d n,
   queryable_tfs req = req -> 0 < req -> 1 <= n -> 24 * n < 2147483648 ->
   guard_var tfs st rs re d n = true ->
@@ -52,41 +48,35 @@ Proof. exact exec_var_limit. Qed.
 Print Assumptions C12_variable.
 
 (** * The property as stated ("all stored histories (fixed and variable) ... all ranges, all N") *)
-Definition C12_stmt_variable (g : Z -> vstore -> Z * Z -> option (Z * Z) -> dir -> Z -> bool) : Prop :=
-  forall tfs (st : vstore) req rs re d n,
+Definition C12_full_variable : Prop := forall tfs (st : vstore) req rs re d n,
   queryable_tfs req = req -> 0 < req -> 1 <= n -> 24 * n < 2147483648 ->
-  g tfs st rs re d n = true ->
   exec_var tfs st req rs re (Some (d, n))
   = match exec_var tfs st req rs re None with
     | Ok l => Ok (lim_of d (Z.to_nat n) l)
     | r => r
     end.
 
-Definition C12_full_variable : Prop := C12_stmt_variable (fun _ _ _ _ _ _ => true).
-
 (** class variable-limit-counts-intervals (F12): 1Min bucket, 10:00:10.5 in one interval and
     10:01:20.5 in the next; "first 1 row from 10:00:30" scans one index slot (10:00), whose only
-    record is then trimmed away, although 10:01:20.5 is in range.  (The other guard, [guard_span],
-    holds: one year file.) *)
+    record is then trimmed away, although 10:01:20.5 is in range *)
 Definition w_var : vstore :=
   mkstore [2020]
     [ slot_entry 60 24 1583143210 [mkvrec 1583143210 500000000 [x01]];
       slot_entry 60 24 1583143280 [mkvrec 1583143280 500000000 [x02]] ].
 
-Theorem C12_refuted_variable : ~ C12_stmt_variable guard_span.
+Theorem C12_refuted_variable : ~ C12_full_variable.
 Proof.
-  intros H. unfold C12_stmt_variable in H.
+  intros H. unfold C12_full_variable in H.
   specialize (H 60 w_var 60 (1583143230, 0) None First 1 eq_refl eq_refl).
   assert (H1 : 1 <= 1) by discriminate. assert (H2 : 24 * 1 < 2147483648) by reflexivity.
-  specialize (H H1 H2 eq_refl). vm_compute in H. discriminate H.
+  specialize (H H1 H2). vm_compute in H. discriminate H.
 Qed.
 Print Assumptions C12_refuted_variable.
 
-(** class variable-last-limit-spans-year-files: 1H bucket with three intervals in 2019 and one in
-    2020; "last 2 rows": the backward scan takes one slot from 2020, then reads the last chunk of
-    2019, which holds three live slots where one was missing; read() then attributes the whole
-    result buffer (the 2020 triple included) to the 2019 file and readSecondStage fails (EOF).
-    (The other guard, [guard_f12], holds: all-time range.) *)
+(** Regression (class variable-last-limit-spans-year-files, fixed in /repo commit ca55ae9): 1H bucket
+    with three intervals in 2019 and one in 2020.  Before the fix "last 2" and "last 3" failed in the
+    implementation (the 2019 file was given the whole result buffer as its index data); they are
+    inside the guard and answer the last rows. *)
 Definition w_span : vstore :=
   mkstore [2019; 2020]
     [ slot_entry 3600 24 1551435600 [mkvrec 1551435600 500000000 [x01]];
@@ -94,23 +84,13 @@ Definition w_span : vstore :=
       slot_entry 3600 24 1551442800 [mkvrec 1551442800 500000000 [x03]];
       slot_entry 3600 24 1583058000 [mkvrec 1583058000 500000000 [x04]] ].
 
-Theorem C12_refuted_last_span : ~ C12_stmt_variable guard_f12.
-Proof.
-  intros H. unfold C12_stmt_variable in H.
-  specialize (H 3600 w_span 3600 (0, 0) None Last 2 eq_refl eq_refl).
-  assert (H1 : 1 <= 2) by discriminate. assert (H2 : 24 * 2 < 2147483648) by reflexivity.
-  specialize (H H1 H2 eq_refl). vm_compute in H. discriminate H.
-Qed.
-Print Assumptions C12_refuted_last_span.
-
-Theorem C12_refuted : ~ C12_full_variable.
-Proof.
-  intros H. unfold C12_full_variable, C12_stmt_variable in H.
-  specialize (H 60 w_var 60 (1583143230, 0) None First 1 eq_refl eq_refl).
-  assert (H1 : 1 <= 1) by discriminate. assert (H2 : 24 * 1 < 2147483648) by reflexivity.
-  specialize (H H1 H2 eq_refl). vm_compute in H. discriminate H.
-Qed.
-Print Assumptions C12_refuted.
+Example C12_last_span_regression :
+  guard_var 3600 w_span (0, 0) None Last 2 = true /\ guard_var 3600 w_span (0, 0) None Last 3 = true
+  /\ exec_var 3600 w_span 3600 (0, 0) None (Some (Last, 2))
+     = Ok [mkvrec 1551442800 500000000 [x03]; mkvrec 1583058000 500000000 [x04]]
+  /\ exec_var 3600 w_span 3600 (0, 0) None (Some (Last, 3))
+     = Ok [mkvrec 1551439200 500000000 [x02]; mkvrec 1551442800 500000000 [x03]; mkvrec 1583058000 500000000 [x04]].
+Proof. repeat split; vm_compute; reflexivity. Qed.
 
 Definition C12_full_fixed : Prop := forall (A : Type) tfs recLen (st : storeA A) req rs re d n,
   0 < req -> 2 <= recLen -> 1 <= n -> recLen * n < 2147483648 ->
@@ -141,7 +121,6 @@ Example C12_nonvacuous :
   guard_var 60 w_var (1583143260, 0) None First 1 = true
   /\ exec_var 60 w_var 60 (1583143260, 0) None (Some (First, 1)) = Ok [mkvrec 1583143280 500000000 [x02]]
   /\ guard_var 60 w_var (0, 0) (Some (1583143290, 0)) Last 1 = true
-  /\ guard_var 3600 w_span (0, 0) None Last 1 = true /\ guard_var 3600 w_span (0, 0) None Last 4 = true
   /\ exec_var 3600 w_span 3600 (0, 0) None (Some (Last, 4)) = exec_var 3600 w_span 3600 (0, 0) None None
   /\ exec_fixed 60 16 w_fix 60 0 None (Some (Last, 2))
      = Ok [(1583143260, [x02]); (1583143320, [x03])].
